@@ -394,6 +394,25 @@ pub struct Roles {
     pub ab: bool,
     /// use only the moderate ξ values (no underflow-scale answers)
     pub xi_moderate: bool,
+    /// add the conditioning ladder: ξ = 10^(-k ω(g)) so that consecutive parameters differ by 10^-k, k up to the
+    /// edge of the domain in which the condition-scaled tolerances still bite
+    pub xi_ladder: bool,
+}
+
+pub const LADDER_K: [f64; 5] = [6.0, 9.0, 9.5, 9.9, 10.1];
+
+/// ladder alternatives for the ξ drawn after `step+1` removals in the sector
+fn xi_ladder_alts(case: &Case, order: &[usize], xi_index: usize) -> Vec<f64> {
+    let mut g = case.g.full();
+    for s in 0..=xi_index {
+        g ^= 1 << order[s];
+    }
+    let w = q_to_f64(&case.rt.omega[g]);
+    LADDER_K
+        .iter()
+        .map(|k| libm::pow(10.0, -k * w))
+        .filter(|x| *x > 1e-300 && *x < 1.0)
+        .collect()
 }
 
 /// positions of a point for a case: role per coordinate
@@ -462,6 +481,7 @@ pub fn sector_points(case: &Case, order: &[usize], k: usize, roles_on: &Roles) -
     let base = sector_defaults(case, order);
     let mut alts: Vec<Vec<f64>> = vec![];
     let mut ustep = 0;
+    let mut xistep = 0;
     for r in &roles {
         alts.push(match r {
             Role::U => {
@@ -470,7 +490,7 @@ pub fn sector_points(case: &Case, order: &[usize], k: usize, roles_on: &Roles) -
                 a
             }
             Role::Xi => {
-                if roles_on.xi {
+                let mut a = if roles_on.xi {
                     if roles_on.xi_moderate {
                         XI_MODERATE.to_vec()
                     } else {
@@ -478,7 +498,12 @@ pub fn sector_points(case: &Case, order: &[usize], k: usize, roles_on: &Roles) -
                     }
                 } else {
                     vec![]
+                };
+                if roles_on.xi_ladder {
+                    a.extend(xi_ladder_alts(case, order, xistep));
                 }
+                xistep += 1;
+                a
             }
             Role::P => {
                 if roles_on.p {
@@ -536,6 +561,7 @@ pub fn sector_full_product(case: &Case, order: &[usize], roles_on: &Roles, cap: 
     let base = sector_defaults(case, order);
     let mut alts: Vec<Vec<f64>> = vec![];
     let mut ustep = 0;
+    let mut xistep = 0;
     for (i, r) in roles.iter().enumerate() {
         let mut a = vec![base[i]];
         match r {
@@ -549,6 +575,10 @@ pub fn sector_full_product(case: &Case, order: &[usize], roles_on: &Roles, cap: 
                 if roles_on.xi {
                     a.extend(if roles_on.xi_moderate { XI_MODERATE.to_vec() } else { XI_ALPHA.to_vec() });
                 }
+                if roles_on.xi_ladder {
+                    a.extend(xi_ladder_alts(case, order, xistep));
+                }
+                xistep += 1;
             }
             Role::P => {
                 if roles_on.p {
